@@ -347,6 +347,8 @@ fn load_set(path: &Path, into: &mut std::collections::HashSet<u64>) {
 }
 
 pub struct JobResult {
+    /// Run ranges (from, to) of the workers that died.
+    pub crash_ranges: Vec<(u64, u64)>,
     pub stats: Stats,
     pub found: Vec<(J, Violation, Plan)>,
     pub crashes: Vec<(u64, String)>,
@@ -420,6 +422,7 @@ pub fn run_job(job: &Job, seed: u64, workers: usize, scratch: &Path, tag: &str) 
     let mut total = Stats::default();
     let mut found = Vec::new();
     let mut crashes = Vec::new();
+    let mut crash_ranges = Vec::new();
     let mut batch = crate::prng::LogHash::new();
     let mut samples = Vec::new();
     // A worker that makes no progress for too long is killed and reported
@@ -497,6 +500,7 @@ pub fn run_job(job: &Job, seed: u64, workers: usize, scratch: &Path, tag: &str) 
                     .take(12)
                     .collect::<Vec<_>>()
                     .join(" | ");
+                crash_ranges.push((from, to));
                 crashes.push((
                     idx,
                     format!(
@@ -511,6 +515,7 @@ pub fn run_job(job: &Job, seed: u64, workers: usize, scratch: &Path, tag: &str) 
         }
     }
     JobResult {
+        crash_ranges,
         stats: total,
         found,
         crashes,
@@ -518,6 +523,17 @@ pub fn run_job(job: &Job, seed: u64, workers: usize, scratch: &Path, tag: &str) 
         samples,
         wall_s: start.elapsed().as_secs_f64(),
     }
+}
+
+/// Runs `from..to` of a world in one fresh process; true if the process survives.
+pub fn exec_range_survives(exe: &Path, world: &str, ask: Ask, seed: u64, from: u64, to: u64) -> bool {
+    let st = Command::new(exe)
+        .args(["exec-range", world, ask.prop, if ask.thorough { "thorough" } else { "quick" }, &seed.to_string(), &from.to_string(), &to.to_string()])
+        .stdin(Stdio::null())
+        .stdout(Stdio::null())
+        .stderr(Stdio::null())
+        .status();
+    matches!(st, Ok(s) if s.code() == Some(0) || s.code() == Some(1))
 }
 
 /// Executes one plan in a fresh process; returns (exit code or None if
@@ -656,11 +672,15 @@ pub fn run_check(
             // A dead worker: regenerate the plan, minimise it by re-executing
             // candidates in fresh processes, write it as the replay file.
             let plan = job.world.generate(seed, *idx, job.ask);
-            let crash_prop = crate::crash_property(job.world.name());
+            // A dead process is a memory-safety finding of its world; for the
+            // property being checked it also means that the history did not produce
+            // the result the property promises (no panic, a complete round trip, ...).
+            let world_crash_prop = crate::crash_property(job.world.name());
+            let crash_prop = if job.world.serves().contains(&prop) { prop } else { world_crash_prop };
             let exe = job.exe.clone().unwrap_or_else(|| std::env::current_exe().expect("current_exe"));
             let v0 = Violation {
-                prop: crash_prop,
-                inv: format!("{}.process_died", crash_prop),
+                prop: world_crash_prop,
+                inv: format!("{}.process_died", world_crash_prop),
                 detail: text.clone(),
                 at_op: usize::MAX,
                 key: String::new(),
@@ -668,17 +688,54 @@ pub fn run_check(
             let mut scratch_stats = Stats::default();
             let original_ops = plan.ops.len();
             let first = execute_in_child_with(&exe, &plan, &mut scratch_stats).violations.into_iter().find(|v| v.inv == v0.inv);
+            let mut range_replay: Option<(u64, u64)> = None;
             let (plan, v, execs) = match first {
                 Some(v1) => {
                     let res = minimise(&plan, v1, |cand| execute_in_child_with(&exe, cand, &mut scratch_stats).violations, Duration::from_secs(120), 400);
                     (res.plan, res.violation, res.executions)
                 }
-                None => (plan, v0, 0),
+                None => {
+                    // The plan alone does not kill a fresh process: the death depends on
+                    // what the same process executed before (heap state).  Fall back to
+                    // replaying the worker's own run range, shortened from the front.
+                    let worker_from = res.crash_ranges.iter().find(|(f, t)| *f <= *idx && *idx < *t).map(|(f, _)| *f).unwrap_or(*idx);
+                    let dies = |from: u64| -> bool { !exec_range_survives(&exe, job.world.name(), job.ask, seed, from, *idx + 1) };
+                    let mut execs = 0u64;
+                    if dies(worker_from) {
+                        let mut lo = worker_from; // known to die
+                        let mut hi = *idx; // single plan known to survive
+                        while hi - lo > 1 && execs < 14 {
+                            let mid = lo + (hi - lo) / 2;
+                            execs += 1;
+                            if dies(mid) {
+                                lo = mid;
+                            } else {
+                                hi = mid;
+                            }
+                        }
+                        range_replay = Some((lo, *idx + 1));
+                    }
+                    (plan, v0, execs)
+                }
             };
+            let v = Violation { prop: crash_prop, inv: format!("{}.process_died", crash_prop), ..v };
             let path = replay_dir.join(format!("{}-{}-{}crash{}.json", crash_prop, seed, job.label, idx));
             let mut rj = replay_json(&plan, &v, execs, original_ops);
             if let Some(e) = &job.exe {
                 rj.set("replay_with", J::str(&e.display().to_string()));
+            }
+            if let Some((from, to)) = range_replay {
+                rj.set(
+                    "replay_range",
+                    J::obj()
+                        .with("world", J::str(job.world.name()))
+                        .with("prop", J::str(job.ask.prop))
+                        .with("thorough", J::Bool(job.ask.thorough))
+                        .with("seed", J::u(seed))
+                        .with("from", J::u(from))
+                        .with("to", J::u(to)),
+                );
+                rj.set("note", J::str("the last plan alone does not kill a fresh process; the replay re-executes this range of run indices in one process"));
             }
             std::fs::write(&path, rj.pretty()).expect("harness: cannot write replay");
             if crash_prop == prop {
